@@ -196,6 +196,18 @@ ALLOWED_AXIOMS = {
     "Classical_Prop.classic",
 }
 
+# specification axioms the standard library declares for its primitive floats (Floats.FloatAxioms) and 63-bit
+# integers (Numbers.Cyclic.Int63.Uint63): used only by the IEEE whole-share exactness theorems (Props/C05float.v,
+# through Flocq's IEEE754.PrimFloat bridge). Print Assumptions prints them with or without their module prefix
+# depending on what is imported, so both forms are listed.
+_FLOAT_SPECS = ["add_spec", "sub_spec", "eqb_spec", "opp_spec", "of_uint63_spec", "Prim2SF_valid", "SF2Prim_Prim2SF",
+                "Prim2SF_SF2Prim", "mul_spec", "div_spec", "ltb_spec", "leb_spec", "compare_spec", "abs_spec"]
+_UINT63_SPECS = ["add_spec", "sub_spec", "lsl_spec", "lsr_spec", "lor_spec", "land_spec", "ltb_spec", "leb_spec",
+                 "eqb_refl", "eqb_correct", "of_to_Z", "mul_spec"]
+STDLIB_SPEC_AXIOMS = set(_FLOAT_SPECS) | {"FloatAxioms." + n for n in _FLOAT_SPECS} | \
+    {"Uint63." + n for n in _UINT63_SPECS} | {"Uint63Axioms." + n for n in _UINT63_SPECS}
+ALLOWED_AXIOMS |= STDLIB_SPEC_AXIOMS
+
 # primitives that Print Assumptions lists for developments using primitive floats/ints: part of
 # the kernel, not axioms of this development
 PRIMITIVE_PREFIXES = ("PrimFloat.", "PrimInt63.", "Uint63.", "FloatOps.", "FloatAxioms.",
@@ -225,10 +237,20 @@ def forbidden_tokens():
             if fn.endswith(".v"):
                 p = os.path.join(root, fn)
                 src = strip_comments(open(p).read())
-                # Section variables are legitimate: allow Variable/Hypothesis/Context inside sections
+                # Section variables are legitimate: Variable(s)/Hypothesis(es) are allowed inside a Section and
+                # nowhere else (outside one they declare axioms)
+                depth = 0
+                opened = []
                 for ln, line in enumerate(src.split("\n"), 1):
-                    m = FORBIDDEN.search(line)
-                    if m:
+                    ms = re.match(r"\s*Section\s+([\w']+)\s*\.", line)
+                    if ms:
+                        opened.append(ms.group(1))
+                    me = re.match(r"\s*End\s+([\w']+)\s*\.", line)
+                    if me and opened and opened[-1] == me.group(1):
+                        opened.pop()
+                    for m in FORBIDDEN.finditer(line):
+                        if opened and m.group(0) in ("Variable", "Variables", "Hypothesis", "Hypotheses"):
+                            continue
                         hits.append("%s:%d: %s" % (os.path.relpath(p, COQ), ln, m.group(0)))
     return hits
 
